@@ -27,48 +27,48 @@ Local Open Scope nat_scope.
    The model describes the code as it exists.  Two places of the C++ layer
    depart from the documentation in the pinned tree; each has a flag here.
    ONE-LINE EDITS after the corresponding fix is applied to /repo:
-     siv80pq_code       := Fixed   (fixes/C17-siv80pq-key-ctor.patch)
-     isap_setkey0_code  := Fixed   (fixes/C17-isap-setkey-zero.patch)        *)
-Inductive code_version := AsFound | Fixed.
-Definition siv80pq_code : code_version := AsFound.
-Definition isap_setkey0_code : code_version := AsFound.
+     siv80pq_code       := CodeFixed   (fixes/C17-siv80pq-key-ctor.patch)
+     isap_setkey0_code  := CodeFixed   (fixes/C17-isap-setkey-zero.patch)        *)
+Inductive cpp_code_version := CodeAsFound | CodeFixed.
+Definition siv80pq_code : cpp_code_version := CodeFixed.
+Definition isap_setkey0_code : cpp_code_version := CodeFixed.
 
 (* ---- pointers, faults, byte_array -------------------------------------- *)
 
 (* a pointer argument: None = NULL; Some b = the bytes readable at it *)
-Definition ptr := option bytes.
-Definition is_some {A} (o : option A) : bool := match o with Some _ => true | None => false end.
+Definition cpp_ptr := option bytes.
+Definition cpp_is_some {A} (o : option A) : bool := match o with Some _ => true | None => false end.
 
-(* Fault = the call reads through NULL or past the readable bytes (a crash /
+(* CppFault = the call reads through NULL or past the readable bytes (a crash /
    undefined behaviour in the real code) *)
-Inductive outcome (A : Type) := Ok (a : A) | Fault.
-Arguments Ok {A} a.
-Arguments Fault {A}.
+Inductive cpp_outcome (A : Type) := CppOk (a : A) | CppFault.
+Arguments CppOk {A} a.
+Arguments CppFault {A}.
 
-Definition rd (p : ptr) (n : nat) : outcome bytes :=
+Definition cpp_rd (p : cpp_ptr) (n : nat) : cpp_outcome bytes :=
   match p with
-  | None => Fault
-  | Some b => if length b <? n then Fault else Ok (firstn n b)
+  | None => CppFault
+  | Some b => if length b <? n then CppFault else CppOk (firstn n b)
   end.
 
-Definition obind {A B} (x : outcome A) (f : A -> outcome B) : outcome B :=
-  match x with Ok a => f a | Fault => Fault end.
+Definition cpp_obind {A B} (x : cpp_outcome A) (f : A -> cpp_outcome B) : cpp_outcome B :=
+  match x with CppOk a => f a | CppFault => CppFault end.
 
 (* std::vector<unsigned char>::resize: keep the prefix, zero-fill the rest *)
-Definition resize (old : bytes) (n : nat) : bytes := firstn n old ++ zeros (n - length old).
+Definition cpp_resize (old : bytes) (n : nat) : bytes := firstn n old ++ zeros (n - length old).
 
 (* ---- nonce members (identical text in all twelve classes) -------------- *)
 
 (* set_nonce(nonce, len):  len >= 16: memcpy 16;  else memset(0, 16-len) and,
    when len > 0, memcpy(nonce + 16 - len, p, len) *)
-Definition code_set_nonce (p : ptr) (len : nat) : outcome bytes :=
-  if 16 <=? len then rd p 16
-  else if len =? 0 then Ok (zeros 16)
-  else obind (rd p len) (fun b => Ok (zeros (16 - len) ++ b)).
+Definition cpp_code_set_nonce (p : cpp_ptr) (len : nat) : cpp_outcome bytes :=
+  if 16 <=? len then cpp_rd p 16
+  else if len =? 0 then CppOk (zeros 16)
+  else cpp_obind (cpp_rd p len) (fun b => CppOk (zeros (16 - len) ++ b)).
 
 (* documented: shorter values are padded on the left with zero bytes, longer
    ones truncated to the first nonce_size() bytes *)
-Definition doc_set_nonce (p : ptr) (len : nat) : option bytes :=
+Definition cpp_doc_set_nonce (p : cpp_ptr) (len : nat) : option bytes :=
   if len =? 0 then Some (zeros 16)
   else match p with
        | None => None
@@ -78,258 +78,258 @@ Definition doc_set_nonce (p : ptr) (len : nat) : option bytes :=
        end.
 
 (* ascon_aead_set_counter: be_store_word64(npub, 0); be_store_word64(npub + 8, n) *)
-Definition code_set_counter (c : N) : bytes := be_encode 8 0 ++ be_encode 8 c.
+Definition cpp_code_set_counter (c : N) : bytes := be_encode 8 0 ++ be_encode 8 c.
 (* documented: big-endian value with leading zeroes making up nonce_size() bytes *)
-Definition doc_set_counter (c : N) : bytes := be_encode 16 c.
+Definition cpp_doc_set_counter (c : N) : bytes := be_encode 16 c.
 
 (* ---- documented keys --------------------------------------------------- *)
-Inductive dkey :=
-| DRaw (k : bytes)       (* a key of key_size() bytes *)
-| DSaved (s : bytes).    (* ISAP: an 80-byte saved key *)
+Inductive cpp_dkey :=
+| CppRawKey (k : bytes)       (* a key of key_size() bytes *)
+| CppSavedKey (s : bytes).    (* ISAP: an 80-byte saved key *)
 
 (* operations on a cipher object and what the caller observes *)
 Section Cipher.
 Variable R : Type.                  (* randomness consumed by one keying call (masked classes) *)
 
-Inductive ctor :=
-| CDefault                                             (* T()                                  *)
-| CKey (junk : bytes) (r : R) (p : ptr) (len : nat).   (* T(key) / isap: T(key, len); junk = the
+Inductive cpp_ctor :=
+| CppDefault                                             (* T()                                  *)
+| CppKeyCtor (junk : bytes) (r : R) (p : cpp_ptr) (len : nat).   (* T(key) / isap: T(key, len); junk = the
                                                           object's storage before construction  *)
-Inductive op :=
-| OSetKey (r : R) (p : ptr) (len : nat)
-| OSetNonce (p : ptr) (len : nat)
-| OSetCounter (c : N)
-| OEncrypt (ad m : bytes)                  (* encrypt(c, m, len, ad, adlen)                      *)
-| OEncryptBA (cold ad m : bytes)           (* encrypt(byte_array &c, m[, ad]); cold = old c      *)
-| ODecrypt (ad c : bytes)                  (* decrypt(m, c, len, ad, adlen)                      *)
-| ODecryptBA (mold ad c : bytes)           (* decrypt(byte_array &m, c[, ad]); mold = old m      *)
-| ORandomize (r : R)                       (* randomize_key() (masked classes)                   *)
-| OClear.                                  (* clear()                                            *)
+Inductive cpp_op :=
+| CpSetKey (r : R) (p : cpp_ptr) (len : nat)
+| CpSetNonce (p : cpp_ptr) (len : nat)
+| CpSetCounter (c : N)
+| CpEncrypt (ad m : bytes)                  (* encrypt(c, m, len, ad, adlen)                      *)
+| CpEncryptBA (cold ad m : bytes)           (* encrypt(byte_array &c, m[, ad]); cold = old c      *)
+| CpDecrypt (ad c : bytes)                  (* decrypt(m, c, len, ad, adlen)                      *)
+| CpDecryptBA (mold ad c : bytes)           (* decrypt(byte_array &m, c[, ad]); mold = old m      *)
+| CpRandomize (r : R)                       (* randomize_key() (masked classes)                   *)
+| CpClear.                                  (* clear()                                            *)
 
-Inductive res :=
-| RUnit
-| RBool (b : bool)                         (* set_key *)
-| REnc (r : Z) (c : bytes)                 (* return value, bytes written to c *)
-| RDec (r : Z) (m : option bytes)          (* return value, bytes written to m (None: nothing written) *)
-| REncBA (c : bytes)                       (* the byte_array c after the call *)
-| RDecBA (b : bool) (m : bytes).           (* return value, the byte_array m after the call *)
+Inductive cpp_res :=
+| CprUnit
+| CprBool (b : bool)                         (* set_key *)
+| CprEnc (r : Z) (c : bytes)                 (* return value, bytes written to c *)
+| CprDec (r : Z) (m : option bytes)          (* return value, bytes written to m (None: nothing written) *)
+| CprEncBA (c : bytes)                       (* the byte_array c after the call *)
+| CprDecBA (b : bool) (m : bytes).           (* return value, the byte_array m after the call *)
 
 Variable ckey : Type.               (* the C key object held by the class *)
 Variable klen : nat.                (* key_size() *)
 Variable c_encrypt : ckey -> bytes -> bytes -> bytes -> bytes * nat.     (* key nonce ad m -> (c, *clen) *)
 Variable c_decrypt : ckey -> bytes -> bytes -> bytes -> dec_result.      (* key nonce ad c *)
 
-Record obj := { o_key : ckey; o_nonce : bytes }.
-Definition bump (o : obj) : obj := {| o_key := o_key o; o_nonce := increment_nonce (o_nonce o) |}.
+Record cpp_obj := { cpo_key : ckey; cpo_nonce : bytes }.
+Definition cpp_bump (o : cpp_obj) : cpp_obj := {| cpo_key := cpo_key o; cpo_nonce := increment_nonce (cpo_nonce o) |}.
 
-(* T::do_encrypt / T::do_decrypt (same text in all twelve classes) *)
-Definition do_encrypt (o : obj) (ad m : bytes) : obj * (Z * bytes) :=
-  let '(c, clen) := c_encrypt (o_key o) (o_nonce o) ad m in
-  (bump o, (Z.of_nat clen, c)).
+(* T::cpp_do_encrypt / T::cpp_do_decrypt (same text in all twelve classes) *)
+Definition cpp_do_encrypt (o : cpp_obj) (ad m : bytes) : cpp_obj * (Z * bytes) :=
+  let '(c, clen) := c_encrypt (cpo_key o) (cpo_nonce o) ad m in
+  (cpp_bump o, (Z.of_nat clen, c)).
 
-Definition do_decrypt (o : obj) (ad c : bytes) : obj * (Z * option bytes) :=
-  match c_decrypt (o_key o) (o_nonce o) ad c with
+Definition cpp_do_decrypt (o : cpp_obj) (ad c : bytes) : cpp_obj * (Z * option bytes) :=
+  match c_decrypt (cpo_key o) (cpo_nonce o) ad c with
   | DecShort => (o, ((-1)%Z, None))                     (* result < 0; *mlen, m untouched *)
-  | DecDone r m => if (0 <=? r)%Z then (bump o, (Z.of_nat (length m), Some m))
+  | DecDone r m => if (0 <=? r)%Z then (cpp_bump o, (Z.of_nat (length m), Some m))
                    else (o, ((-1)%Z, Some m))
   end.
 
-(* aead::encrypt(byte_array &c, m, ad): c.resize(len + tag_size()); do_encrypt(c.data(), ...) *)
-Definition ba_encrypt (o : obj) (cold ad m : bytes) : obj * bytes :=
-  let buf := resize cold (length m + 16) in
-  let '(o', (_, c)) := do_encrypt o ad m in
+(* aead::encrypt(byte_array &c, m, ad): c.resize(len + tag_size()); cpp_do_encrypt(c.data(), ...) *)
+Definition cpp_ba_encrypt (o : cpp_obj) (cold ad m : bytes) : cpp_obj * bytes :=
+  let buf := cpp_resize cold (length m + 16) in
+  let '(o', (_, c)) := cpp_do_encrypt o ad m in
   (o', set_at buf 0 c).
 
 (* aead::decrypt(byte_array &m, c, ad) *)
-Definition ba_decrypt (o : obj) (mold ad c : bytes) : obj * (bool * bytes) :=
+Definition cpp_ba_decrypt (o : cpp_obj) (mold ad c : bytes) : cpp_obj * (bool * bytes) :=
   if length c <? 16 then (o, (false, []))
   else
-    let buf := resize mold (length c - 16) in
-    let '(o', (r, w)) := do_decrypt o ad c in
+    let buf := cpp_resize mold (length c - 16) in
+    let '(o', (r, w)) := cpp_do_decrypt o ad c in
     if (r <? 0)%Z then (o', (false, []))
     else (o', (true, match w with Some m => set_at buf 0 m | None => buf end)).
 
 (* the key-handling members differ between the class families: a method table *)
-Record keying := {
+Record cpp_keying := {
   kg_default : ckey;                                         (* T()                      *)
-  kg_ctor : bytes -> R -> ptr -> nat -> outcome ckey;        (* T(key[, len])            *)
-  kg_set : ckey -> R -> ptr -> nat -> outcome (bool * ckey); (* set_key(key, len)        *)
+  kg_ctor : bytes -> R -> cpp_ptr -> nat -> cpp_outcome ckey;        (* T(key[, len])            *)
+  kg_set : ckey -> R -> cpp_ptr -> nat -> cpp_outcome (bool * ckey); (* set_key(key, len)        *)
   kg_randomize : R -> ckey -> ckey;                          (* randomize_key()          *)
   kg_clear : ckey -> ckey                                    (* clear()                  *)
 }.
-Variable K : keying.
+Variable K : cpp_keying.
 
-Definition code_ctor (c : ctor) : outcome obj :=
+Definition cpp_code_ctor (c : cpp_ctor) : cpp_outcome cpp_obj :=
   match c with
-  | CDefault => Ok {| o_key := kg_default K; o_nonce := zeros 16 |}
-  | CKey junk r p len => obind (kg_ctor K junk r p len) (fun ck => Ok {| o_key := ck; o_nonce := zeros 16 |})
+  | CppDefault => CppOk {| cpo_key := kg_default K; cpo_nonce := zeros 16 |}
+  | CppKeyCtor junk r p len => cpp_obind (kg_ctor K junk r p len) (fun ck => CppOk {| cpo_key := ck; cpo_nonce := zeros 16 |})
   end.
 
-Definition code_step (o : obj) (x : op) : outcome (obj * res) :=
+Definition cpp_code_step (o : cpp_obj) (x : cpp_op) : cpp_outcome (cpp_obj * cpp_res) :=
   match x with
-  | OSetKey r p len => obind (kg_set K (o_key o) r p len)
-                             (fun '(b, ck) => Ok ({| o_key := ck; o_nonce := o_nonce o |}, RBool b))
-  | OSetNonce p len => obind (code_set_nonce p len) (fun n => Ok ({| o_key := o_key o; o_nonce := n |}, RUnit))
-  | OSetCounter c => Ok ({| o_key := o_key o; o_nonce := code_set_counter c |}, RUnit)
-  | OEncrypt ad m => let '(o', (r, c)) := do_encrypt o ad m in Ok (o', REnc r c)
-  | OEncryptBA cold ad m => let '(o', c) := ba_encrypt o cold ad m in Ok (o', REncBA c)
-  | ODecrypt ad c => let '(o', (r, m)) := do_decrypt o ad c in Ok (o', RDec r m)
-  | ODecryptBA mold ad c => let '(o', (b, m)) := ba_decrypt o mold ad c in Ok (o', RDecBA b m)
-  | ORandomize r => Ok ({| o_key := kg_randomize K r (o_key o); o_nonce := o_nonce o |}, RUnit)
-  | OClear => Ok ({| o_key := kg_clear K (o_key o); o_nonce := zeros 16 |}, RUnit)
+  | CpSetKey r p len => cpp_obind (kg_set K (cpo_key o) r p len)
+                             (fun '(b, ck) => CppOk ({| cpo_key := ck; cpo_nonce := cpo_nonce o |}, CprBool b))
+  | CpSetNonce p len => cpp_obind (cpp_code_set_nonce p len) (fun n => CppOk ({| cpo_key := cpo_key o; cpo_nonce := n |}, CprUnit))
+  | CpSetCounter c => CppOk ({| cpo_key := cpo_key o; cpo_nonce := cpp_code_set_counter c |}, CprUnit)
+  | CpEncrypt ad m => let '(o', (r, c)) := cpp_do_encrypt o ad m in CppOk (o', CprEnc r c)
+  | CpEncryptBA cold ad m => let '(o', c) := cpp_ba_encrypt o cold ad m in CppOk (o', CprEncBA c)
+  | CpDecrypt ad c => let '(o', (r, m)) := cpp_do_decrypt o ad c in CppOk (o', CprDec r m)
+  | CpDecryptBA mold ad c => let '(o', (b, m)) := cpp_ba_decrypt o mold ad c in CppOk (o', CprDecBA b m)
+  | CpRandomize r => CppOk ({| cpo_key := kg_randomize K r (cpo_key o); cpo_nonce := cpo_nonce o |}, CprUnit)
+  | CpClear => CppOk ({| cpo_key := kg_clear K (cpo_key o); cpo_nonce := zeros 16 |}, CprUnit)
   end.
 
-Fixpoint code_steps (o : obj) (ops : list op) : outcome (obj * list res) :=
+Fixpoint cpp_code_steps (o : cpp_obj) (ops : list cpp_op) : cpp_outcome (cpp_obj * list cpp_res) :=
   match ops with
-  | [] => Ok (o, [])
-  | x :: ops' => obind (code_step o x) (fun '(o1, r) =>
-                 obind (code_steps o1 ops') (fun '(o2, rs) => Ok (o2, r :: rs)))
+  | [] => CppOk (o, [])
+  | x :: ops' => cpp_obind (cpp_code_step o x) (fun '(o1, r) =>
+                 cpp_obind (cpp_code_steps o1 ops') (fun '(o2, rs) => CppOk (o2, r :: rs)))
   end.
-Definition code_run (c : ctor) (ops : list op) : outcome (obj * list res) :=
-  obind (code_ctor c) (fun o => code_steps o ops).
+Definition cpp_code_run (c : cpp_ctor) (ops : list cpp_op) : cpp_outcome (cpp_obj * list cpp_res) :=
+  cpp_obind (cpp_code_ctor c) (fun o => cpp_code_steps o ops).
 
 (* ---- the documented machine ------------------------------------------- *)
 Variable has_saved : bool.            (* ISAP: set_key / the constructor accept an 80-byte saved key *)
 Variable ctor_has_len : bool.         (* ISAP: the key constructor takes (key, len) *)
-Variable key_of_doc : dkey -> ckey.   (* the C key object for a documented key *)
+Variable key_of_doc : cpp_dkey -> ckey.   (* the C key object for a documented key *)
 
-Record dstate := { dk : option dkey; dn : option bytes }.   (* None = unspecified (after clear()) *)
+Record cpp_dstate := { cpd_key : option cpp_dkey; cpd_nonce : option bytes }.   (* None = unspecified (after clear()) *)
 
 (* the key constructor.  None = not a documented use. *)
-Definition doc_ctor_key (p : ptr) (len : nat) : option dkey :=
+Definition cpp_doc_ctor_key (p : cpp_ptr) (len : nat) : option cpp_dkey :=
   if ctor_has_len then
-    if len =? 0 then Some (DRaw (zeros klen))
+    if len =? 0 then Some (CppRawKey (zeros klen))
     else match p with
          | None => None
-         | Some b => if len =? klen then (if length b <? klen then None else Some (DRaw (firstn klen b)))
-                     else if (len =? 80) && has_saved then (if length b <? 80 then None else Some (DSaved (firstn 80 b)))
+         | Some b => if len =? klen then (if length b <? klen then None else Some (CppRawKey (firstn klen b)))
+                     else if (len =? 80) && has_saved then (if length b <? 80 then None else Some (CppSavedKey (firstn 80 b)))
                      else None
          end
   else match p with
-       | None => Some (DRaw (zeros klen))                 (* "all-zeroes if key is NULL" *)
-       | Some b => if length b <? klen then None else Some (DRaw (firstn klen b))
+       | None => Some (CppRawKey (zeros klen))                 (* "all-zeroes if key is NULL" *)
+       | Some b => if length b <? klen then None else Some (CppRawKey (firstn klen b))
        end.
 
-Definition doc_ctor (c : ctor) : option dstate :=
+Definition cpp_doc_ctor (c : cpp_ctor) : option cpp_dstate :=
   match c with
-  | CDefault => Some {| dk := Some (DRaw (zeros klen)); dn := Some (zeros 16) |}
-  | CKey _ _ p len => match doc_ctor_key p len with
-                      | Some k => Some {| dk := Some k; dn := Some (zeros 16) |}
+  | CppDefault => Some {| cpd_key := Some (CppRawKey (zeros klen)); cpd_nonce := Some (zeros 16) |}
+  | CppKeyCtor _ _ p len => match cpp_doc_ctor_key p len with
+                      | Some k => Some {| cpd_key := Some k; cpd_nonce := Some (zeros 16) |}
                       | None => None
                       end
   end.
 
 (* set_key(key, len).  None = not a legal call (pointer shorter than len);
    Some None = returns false, nothing changes;  Some (Some k) = returns true, key is k *)
-Definition doc_set_key (p : ptr) (len : nat) : option (option dkey) :=
-  if len =? 0 then Some (Some (DRaw (zeros klen)))        (* zero length = the all-zero key *)
+Definition cpp_doc_set_key (p : cpp_ptr) (len : nat) : option (option cpp_dkey) :=
+  if len =? 0 then Some (Some (CppRawKey (zeros klen)))        (* zero length = the all-zero key *)
   else if (len =? klen) || ((len =? 80) && has_saved) then
     match p with
     | None => Some None                                   (* invalid key pointer: false *)
     | Some b => if length b <? len then None
-                else Some (Some (if len =? klen then DRaw (firstn klen b) else DSaved (firstn 80 b)))
+                else Some (Some (if len =? klen then CppRawKey (firstn klen b) else CppSavedKey (firstn 80 b)))
     end
   else Some None.                                         (* any other length: false *)
 
-Definition doc_step (d : dstate) (x : op) : option (dstate * res) :=
+Definition cpp_doc_step (d : cpp_dstate) (x : cpp_op) : option (cpp_dstate * cpp_res) :=
   match x with
-  | OSetKey _ p len =>
-      match doc_set_key p len with
+  | CpSetKey _ p len =>
+      match cpp_doc_set_key p len with
       | None => None
-      | Some None => Some (d, RBool false)
-      | Some (Some k) => Some ({| dk := Some k; dn := dn d |}, RBool true)
+      | Some None => Some (d, CprBool false)
+      | Some (Some k) => Some ({| cpd_key := Some k; cpd_nonce := cpd_nonce d |}, CprBool true)
       end
-  | OSetNonce p len => match doc_set_nonce p len with
-                       | Some n => Some ({| dk := dk d; dn := Some n |}, RUnit)
+  | CpSetNonce p len => match cpp_doc_set_nonce p len with
+                       | Some n => Some ({| cpd_key := cpd_key d; cpd_nonce := Some n |}, CprUnit)
                        | None => None
                        end
-  | OSetCounter c => if (c <? 2 ^ 64)%N                 (* the parameter is a uint64_t *)
-                     then Some ({| dk := dk d; dn := Some (doc_set_counter c) |}, RUnit) else None
-  | OEncrypt ad m =>
-      match dk d, dn d with
+  | CpSetCounter c => if (c <? 2 ^ 64)%N                 (* the parameter is a uint64_t *)
+                     then Some ({| cpd_key := cpd_key d; cpd_nonce := Some (cpp_doc_set_counter c) |}, CprUnit) else None
+  | CpEncrypt ad m =>
+      match cpd_key d, cpd_nonce d with
       | Some k, Some n => let '(c, clen) := c_encrypt (key_of_doc k) n ad m in
-                          Some ({| dk := dk d; dn := Some (increment_nonce n) |}, REnc (Z.of_nat clen) c)
+                          Some ({| cpd_key := cpd_key d; cpd_nonce := Some (increment_nonce n) |}, CprEnc (Z.of_nat clen) c)
       | _, _ => None
       end
-  | OEncryptBA _ ad m =>
-      match dk d, dn d with
+  | CpEncryptBA _ ad m =>
+      match cpd_key d, cpd_nonce d with
       | Some k, Some n => let '(c, _) := c_encrypt (key_of_doc k) n ad m in
-                          Some ({| dk := dk d; dn := Some (increment_nonce n) |}, REncBA c)
+                          Some ({| cpd_key := cpd_key d; cpd_nonce := Some (increment_nonce n) |}, CprEncBA c)
       | _, _ => None
       end
-  | ODecrypt ad c =>
-      match dk d, dn d with
+  | CpDecrypt ad c =>
+      match cpd_key d, cpd_nonce d with
       | Some k, Some n =>
           match c_decrypt (key_of_doc k) n ad c with
-          | DecShort => Some (d, RDec (-1) None)
+          | DecShort => Some (d, CprDec (-1) None)
           | DecDone r m => if (0 <=? r)%Z
-                           then Some ({| dk := dk d; dn := Some (increment_nonce n) |}, RDec (Z.of_nat (length m)) (Some m))
-                           else Some (d, RDec (-1) (Some m))
+                           then Some ({| cpd_key := cpd_key d; cpd_nonce := Some (increment_nonce n) |}, CprDec (Z.of_nat (length m)) (Some m))
+                           else Some (d, CprDec (-1) (Some m))
           end
       | _, _ => None
       end
-  | ODecryptBA _ ad c =>
-      match dk d, dn d with
+  | CpDecryptBA _ ad c =>
+      match cpd_key d, cpd_nonce d with
       | Some k, Some n =>
           match c_decrypt (key_of_doc k) n ad c with
-          | DecShort => Some (d, RDecBA false [])
+          | DecShort => Some (d, CprDecBA false [])
           | DecDone r m => if (0 <=? r)%Z
-                           then Some ({| dk := dk d; dn := Some (increment_nonce n) |}, RDecBA true m)
-                           else Some (d, RDecBA false [])
+                           then Some ({| cpd_key := cpd_key d; cpd_nonce := Some (increment_nonce n) |}, CprDecBA true m)
+                           else Some (d, CprDecBA false [])
           end
       | _, _ => None
       end
-  | ORandomize _ => Some (d, RUnit)
-  | OClear => Some ({| dk := None; dn := None |}, RUnit)
+  | CpRandomize _ => Some (d, CprUnit)
+  | CpClear => Some ({| cpd_key := None; cpd_nonce := None |}, CprUnit)
   end.
 
-Fixpoint doc_steps (d : dstate) (ops : list op) : option (dstate * list res) :=
+Fixpoint cpp_doc_steps (d : cpp_dstate) (ops : list cpp_op) : option (cpp_dstate * list cpp_res) :=
   match ops with
   | [] => Some (d, [])
-  | x :: ops' => match doc_step d x with
+  | x :: ops' => match cpp_doc_step d x with
                  | None => None
-                 | Some (d1, r) => match doc_steps d1 ops' with
+                 | Some (d1, r) => match cpp_doc_steps d1 ops' with
                                    | None => None
                                    | Some (d2, rs) => Some (d2, r :: rs)
                                    end
                  end
   end.
-Definition doc_run (c : ctor) (ops : list op) : option (dstate * list res) :=
-  match doc_ctor c with Some d => doc_steps d ops | None => None end.
+Definition cpp_doc_run (c : cpp_ctor) (ops : list cpp_op) : option (cpp_dstate * list cpp_res) :=
+  match cpp_doc_ctor c with Some d => cpp_doc_steps d ops | None => None end.
 
 (* when does an object hold what the documentation says *)
 Variable keq : ckey -> ckey -> Prop.      (* "the same key": equality, or equal unmasked value *)
-Definition agrees (o : obj) (d : dstate) : Prop :=
-  (forall k, dk d = Some k -> keq (o_key o) (key_of_doc k)) /\
-  (forall n, dn d = Some n -> o_nonce o = n).
+Definition cpp_agrees (o : cpp_obj) (d : cpp_dstate) : Prop :=
+  (forall k, cpd_key d = Some k -> keq (cpo_key o) (key_of_doc k)) /\
+  (forall n, cpd_nonce d = Some n -> cpo_nonce o = n).
 
 (* THE STATEMENT of C17 for one cipher class: every history the documentation
    gives a meaning to runs without fault, every call returns exactly what the
    documented machine (= the C function under the documented key and nonce)
    returns, and the object ends up holding the documented key and nonce. *)
 Definition C17_stmt : Prop :=
-  forall c ops d rs, doc_run c ops = Some (d, rs) ->
-  exists o, code_run c ops = Ok (o, rs) /\ agrees o d.
+  forall c ops d rs, cpp_doc_run c ops = Some (d, rs) ->
+  exists o, cpp_code_run c ops = CppOk (o, rs) /\ cpp_agrees o d.
 
 End Cipher.
-Arguments CDefault {R}.
-Arguments CKey {R} junk r p len.
-Arguments OSetKey {R} r p len.
-Arguments OSetNonce {R} p len.
-Arguments OSetCounter {R} c.
-Arguments OEncrypt {R} ad m.
-Arguments OEncryptBA {R} cold ad m.
-Arguments ODecrypt {R} ad c.
-Arguments ODecryptBA {R} mold ad c.
-Arguments ORandomize {R} r.
-Arguments OClear {R}.
-Arguments kg_default {R ckey} k.
-Arguments kg_ctor {R ckey} k.
-Arguments kg_set {R ckey} k.
-Arguments kg_randomize {R ckey} k.
-Arguments kg_clear {R ckey} k.
-Arguments o_key {ckey} o.
-Arguments o_nonce {ckey} o.
+Arguments CppDefault {R}.
+Arguments CppKeyCtor {R} junk r p len.
+Arguments CpSetKey {R} r p len.
+Arguments CpSetNonce {R} p len.
+Arguments CpSetCounter {R} c.
+Arguments CpEncrypt {R} ad m.
+Arguments CpEncryptBA {R} cold ad m.
+Arguments CpDecrypt {R} ad c.
+Arguments CpDecryptBA {R} mold ad c.
+Arguments CpRandomize {R} r.
+Arguments CpClear {R}.
+Arguments kg_default {R ckey} _.
+Arguments kg_ctor {R ckey} _.
+Arguments kg_set {R ckey} _.
+Arguments kg_randomize {R ckey} _.
+Arguments kg_clear {R ckey} _.
+Arguments cpo_key {ckey} _.
+Arguments cpo_nonce {ckey} _.
 
 (* ---- the three families of key handling -------------------------------- *)
 
@@ -340,23 +340,23 @@ Arguments o_nonce {ckey} o.
               the remaining bytes keep what the storage held before
      set_key: len == klen && key: memcpy;  len == 0: memset 0;  else false
      clear  : ascon_clean(&m_state)                                          *)
-Definition keying_plain (klen ncopy : nat) : keying unit bytes := {|
+Definition cpp_keying_plain (klen ncopy : nat) : cpp_keying unit bytes := {|
   kg_default := zeros klen;
   kg_ctor := fun junk _ p _ =>
-    let prior := resize junk klen in
+    let prior := cpp_resize junk klen in
     match p with
-    | None => Ok (set_at prior 0 (zeros ncopy))
-    | Some _ => obind (rd p ncopy) (fun b => Ok (set_at prior 0 b))
+    | None => CppOk (set_at prior 0 (zeros ncopy))
+    | Some _ => cpp_obind (cpp_rd p ncopy) (fun b => CppOk (set_at prior 0 b))
     end;
   kg_set := fun ck _ p len =>
-    if (len =? klen) && is_some p then obind (rd p klen) (fun b => Ok (true, b))
-    else if len =? 0 then Ok (true, zeros klen)
-    else Ok (false, ck);
+    if (len =? klen) && cpp_is_some p then cpp_obind (cpp_rd p klen) (fun b => CppOk (true, b))
+    else if len =? 0 then CppOk (true, zeros klen)
+    else CppOk (false, ck);
   kg_randomize := fun _ ck => ck;
   kg_clear := fun _ => zeros klen
 |}.
 
-Definition siv80pq_ncopy (v : code_version) : nat := match v with AsFound => 16 | Fixed => 20 end.
+Definition cpp_siv80pq_ncopy (v : cpp_code_version) : nat := match v with CodeAsFound => 16 | CodeFixed => 20 end.
 
 (* masked classes: ascon_masked_key_{128,160}_t m_key; m_nonce[16].
      T()    : memset(&m_key, 0, sizeof)            (all shares zero)
@@ -369,17 +369,17 @@ Variable R mkey : Type.
 Variable mk_init : R -> bytes -> mkey.        (* ascon_masked_key_*_init *)
 Variable mk_zero_image : mkey.                (* the all-zero object image *)
 Variable mk_randomize : R -> mkey -> mkey.    (* ascon_masked_key_*_randomize *)
-Definition keying_masked (klen : nat) : keying R mkey := {|
+Definition cpp_keying_masked (klen : nat) : cpp_keying R mkey := {|
   kg_default := mk_zero_image;
   kg_ctor := fun _ r p _ =>
     match p with
-    | None => Ok (mk_init r (zeros klen))
-    | Some _ => obind (rd p klen) (fun b => Ok (mk_init r b))
+    | None => CppOk (mk_init r (zeros klen))
+    | Some _ => cpp_obind (cpp_rd p klen) (fun b => CppOk (mk_init r b))
     end;
   kg_set := fun ck r p len =>
-    if (len =? klen) && is_some p then obind (rd p klen) (fun b => Ok (true, mk_init r b))
-    else if len =? 0 then Ok (true, mk_init r (zeros klen))
-    else Ok (false, ck);
+    if (len =? klen) && cpp_is_some p then cpp_obind (cpp_rd p klen) (fun b => CppOk (true, mk_init r b))
+    else if len =? 0 then CppOk (true, mk_init r (zeros klen))
+    else CppOk (false, ck);
   kg_randomize := mk_randomize;
   kg_clear := fun _ => mk_zero_image
 |}.
@@ -397,41 +397,41 @@ Section Isap.
 Variable pk : Type.
 Variable isap_init : bytes -> pk.     (* asconXXX_isap_aead_init on klen bytes *)
 Variable isap_load : bytes -> pk.     (* asconXXX_isap_aead_load_key on 80 bytes *)
-Definition isap_zero_src (v : code_version) (klen : nat) (p : ptr) : ptr :=
-  match v with AsFound => p | Fixed => Some (zeros klen) end.
-Definition keying_isap (v : code_version) (klen : nat) : keying unit pk := {|
+Definition cpp_isap_zero_src (v : cpp_code_version) (klen : nat) (p : cpp_ptr) : cpp_ptr :=
+  match v with CodeAsFound => p | CodeFixed => Some (zeros klen) end.
+Definition cpp_keying_isap (v : cpp_code_version) (klen : nat) : cpp_keying unit pk := {|
   kg_default := isap_init (zeros klen);
   kg_ctor := fun _ _ p len =>
-    if len =? klen then obind (rd p klen) (fun b => Ok (isap_init b))
-    else if len =? 80 then obind (rd p 80) (fun b => Ok (isap_load b))
-    else Ok (isap_init (zeros klen));
+    if len =? klen then cpp_obind (cpp_rd p klen) (fun b => CppOk (isap_init b))
+    else if len =? 80 then cpp_obind (cpp_rd p 80) (fun b => CppOk (isap_load b))
+    else CppOk (isap_init (zeros klen));
   kg_set := fun ck _ p len =>
-    if (len =? klen) && is_some p then obind (rd p klen) (fun b => Ok (true, isap_init b))
-    else if (len =? 80) && is_some p then obind (rd p 80) (fun b => Ok (true, isap_load b))
-    else if len =? 0 then obind (rd (isap_zero_src v klen p) klen) (fun b => Ok (true, isap_init b))
-    else Ok (false, ck);
+    if (len =? klen) && cpp_is_some p then cpp_obind (cpp_rd p klen) (fun b => CppOk (true, isap_init b))
+    else if (len =? 80) && cpp_is_some p then cpp_obind (cpp_rd p 80) (fun b => CppOk (true, isap_load b))
+    else if len =? 0 then cpp_obind (cpp_rd (cpp_isap_zero_src v klen p) klen) (fun b => CppOk (true, isap_init b))
+    else CppOk (false, ck);
   kg_randomize := fun _ ck => ck;
   kg_clear := fun _ => isap_init (zeros klen)
 |}.
-Definition isap_key_of_doc (d : dkey) : pk :=
-  match d with DRaw k => isap_init k | DSaved s => isap_load s end.
+Definition cpp_isap_key_of_doc (d : cpp_dkey) : pk :=
+  match d with CppRawKey k => isap_init k | CppSavedKey s => isap_load s end.
 End Isap.
 
-Definition raw_key_of_doc (d : dkey) : bytes := match d with DRaw k => k | DSaved s => s end.
+Definition cpp_raw_key_of_doc (d : cpp_dkey) : bytes := match d with CppRawKey k => k | CppSavedKey s => s end.
 
 (* ---- hash / hasha / xof_with_output_length<L> / xofa_with_output_length<L> ----
    Header-only inline wrappers around one C state object.  The C functions
    are abstract; cstr = bytes readable at a const char* (up to and excluding
    the first NUL is the C string). *)
-Fixpoint strlen_b (b : bytes) : nat :=
-  match b with [] => 0 | x :: b' => if (x =? 0)%N then 0 else S (strlen_b b') end.
-Definition cstring (b : bytes) : bytes := firstn (strlen_b b) b.
+Fixpoint cpp_strlen_b (b : bytes) : nat :=
+  match b with [] => 0 | x :: b' => if (x =? 0)%N then 0 else S (cpp_strlen_b b') end.
+Definition cpp_cstring (b : bytes) : bytes := firstn (cpp_strlen_b b) b.
 
 Section Xof.
 Variable S : Type.                                   (* ascon_xof_state_t / ascon_xofa_state_t *)
 Variable c_init : S.                                 (* ascon_xof_init *)
 Variable c_init_fixed : nat -> S.                    (* ascon_xof_init_fixed(outlen) *)
-Variable c_init_custom : ptr -> bytes -> nat -> S.   (* ascon_xof_init_custom(function_name, custom, customlen, outlen) *)
+Variable c_init_custom : cpp_ptr -> bytes -> nat -> S.   (* ascon_xof_init_custom(function_name, custom, customlen, outlen) *)
 Variable c_reinit : S -> S.
 Variable c_reinit_fixed : S -> nat -> S.
 Variable c_absorb : S -> bytes -> S.
@@ -440,68 +440,68 @@ Variable c_pad : S -> S.
 Variable c_copy : S -> S -> S.                       (* ascon_xof_copy(dest, src): new dest *)
 Variable c_free : S -> S.
 
-Inductive xctor :=
-| XDefault
-| XCopy (junk other : S)                            (* copy constructor; junk = the raw storage *)
-| XCustom (name : ptr) (custom : bytes)              (* (name, custom = 0, customlen = 0) and (name, byte_array) *).
-Inductive xop :=
-| XAssign (self : bool) (other : S)                  (* operator=; self: &other == this *)
-| XReset
-| XAbsorb (d : bytes)                                (* absorb(const unsigned char *, size_t) / absorb(byte_array) *)
-| XAbsorbCStr (p : ptr)                              (* absorb(const char-pointer) *)
-| XAbsorbString (s : bytes)                          (* absorb(const std::string ref) *)
-| XSqueeze (n : nat)                                 (* squeeze(unsigned char *, size_t) *)
-| XSqueezeBA (n : nat)                               (* byte_array squeeze(size_t) *)
-| XPad.
+Inductive cpp_xctor :=
+| CpxDefault
+| CpxCopy (junk other : S)                            (* copy constructor; junk = the raw storage *)
+| CpxCustom (name : cpp_ptr) (custom : bytes)              (* (name, custom = 0, customlen = 0) and (name, byte_array) *).
+Inductive cpp_xop :=
+| CpxAssign (self : bool) (other : S)                  (* operator=; self: &other == this *)
+| CpxReset
+| CpxAbsorb (d : bytes)                                (* absorb(const unsigned char *, size_t) / absorb(byte_array) *)
+| CpxAbsorbCStr (p : cpp_ptr)                              (* absorb(const char-pointer) *)
+| CpxAbsorbString (s : bytes)                          (* absorb(const std::string ref) *)
+| CpxSqueeze (n : nat)                                 (* squeeze(unsigned char *, size_t) *)
+| CpxSqueezeBA (n : nat)                               (* byte_array squeeze(size_t) *)
+| CpxPad.
 
-Definition xof_ctor (L : nat) (c : xctor) : S :=
+Definition cpp_xof_ctor (L : nat) (c : cpp_xctor) : S :=
   match c with
-  | XDefault => if L =? 0 then c_init else c_init_fixed L
-  | XCopy junk other => c_copy junk other            (* ascon_xof_copy(&m_state, &other.m_state) *)
-  | XCustom name custom => c_init_custom name custom L
+  | CpxDefault => if L =? 0 then c_init else c_init_fixed L
+  | CpxCopy junk other => c_copy junk other            (* ascon_xof_copy(&m_state, &other.m_state) *)
+  | CpxCustom name custom => c_init_custom name custom L
   end.
 
-Definition xof_step (L : nat) (s : S) (x : xop) : S * bytes :=
+Definition cpp_xof_step (L : nat) (s : S) (x : cpp_xop) : S * bytes :=
   match x with
-  | XAssign self other => if self then (s, []) else (c_copy (c_free s) other, [])
-  | XReset => (if L =? 0 then c_reinit s else c_reinit_fixed s L, [])
-  | XAbsorb d => (c_absorb s d, [])
-  | XAbsorbCStr p => match p with None => (s, []) | Some b => (c_absorb s (cstring b), []) end
-  | XAbsorbString str => (c_absorb s str, [])
-  | XSqueeze n => c_squeeze s n
-  | XSqueezeBA n => let '(s', out) := c_squeeze s n in (s', set_at (zeros n) 0 out)
-  | XPad => (c_pad s, [])
+  | CpxAssign self other => if self then (s, []) else (c_copy (c_free s) other, [])
+  | CpxReset => (if L =? 0 then c_reinit s else c_reinit_fixed s L, [])
+  | CpxAbsorb d => (c_absorb s d, [])
+  | CpxAbsorbCStr p => match p with None => (s, []) | Some b => (c_absorb s (cpp_cstring b), []) end
+  | CpxAbsorbString str => (c_absorb s str, [])
+  | CpxSqueeze n => c_squeeze s n
+  | CpxSqueezeBA n => let '(s', out) := c_squeeze s n in (s', set_at (zeros n) 0 out)
+  | CpxPad => (c_pad s, [])
   end.
 
 (* the C call sequence each member stands for *)
-Inductive ccall :=
-| CcInit | CcInitFixed (n : nat) | CcInitCustom (name : ptr) (custom : bytes) (n : nat)
+Inductive cpp_ccall :=
+| CcInit | CcInitFixed (n : nat) | CcInitCustom (name : cpp_ptr) (custom : bytes) (n : nat)
 | CcReinit | CcReinitFixed (n : nat) | CcAbsorb (d : bytes) | CcSqueeze (n : nat) | CcPad
 | CcFree | CcCopyFrom (src : S).
-Definition c_exec (s : S) (c : ccall) : S * bytes :=
+Definition cpp_c_exec (s : S) (c : cpp_ccall) : S * bytes :=
   match c with
   | CcInit => (c_init, []) | CcInitFixed n => (c_init_fixed n, []) | CcInitCustom nm cu n => (c_init_custom nm cu n, [])
   | CcReinit => (c_reinit s, []) | CcReinitFixed n => (c_reinit_fixed s n, [])
   | CcAbsorb d => (c_absorb s d, []) | CcSqueeze n => c_squeeze s n | CcPad => (c_pad s, [])
   | CcFree => (c_free s, []) | CcCopyFrom src => (c_copy s src, [])
   end.
-Fixpoint c_exec_list (s : S) (l : list ccall) : S * bytes :=
+Fixpoint cpp_c_exec_list (s : S) (l : list cpp_ccall) : S * bytes :=
   match l with
   | [] => (s, [])
-  | c :: l' => let '(s1, o1) := c_exec s c in let '(s2, o2) := c_exec_list s1 l' in (s2, o1 ++ o2)
+  | c :: l' => let '(s1, o1) := cpp_c_exec s c in let '(s2, o2) := cpp_c_exec_list s1 l' in (s2, o1 ++ o2)
   end.
 (* the documented correspondence *)
-Definition calls_of (L : nat) (x : xop) : list ccall :=
+Definition cpp_calls_of (L : nat) (x : cpp_xop) : list cpp_ccall :=
   match x with
-  | XAssign self other => if self then [] else [CcFree; CcCopyFrom other]
-  | XReset => if L =? 0 then [CcReinit] else [CcReinitFixed L]
-  | XAbsorb d => [CcAbsorb d]
-  | XAbsorbCStr None => []
-  | XAbsorbCStr (Some b) => [CcAbsorb (cstring b)]
-  | XAbsorbString str => [CcAbsorb str]
-  | XSqueeze n => [CcSqueeze n]
-  | XSqueezeBA n => [CcSqueeze n]
-  | XPad => [CcPad]
+  | CpxAssign self other => if self then [] else [CcFree; CcCopyFrom other]
+  | CpxReset => if L =? 0 then [CcReinit] else [CcReinitFixed L]
+  | CpxAbsorb d => [CcAbsorb d]
+  | CpxAbsorbCStr None => []
+  | CpxAbsorbCStr (Some b) => [CcAbsorb (cpp_cstring b)]
+  | CpxAbsorbString str => [CcAbsorb str]
+  | CpxSqueeze n => [CcSqueeze n]
+  | CpxSqueezeBA n => [CcSqueeze n]
+  | CpxPad => [CcPad]
   end.
 End Xof.
 
@@ -516,50 +516,50 @@ Variable h_copy : S -> S -> S.
 Variable h_free : S -> S.
 Variable h_oneshot : bytes -> bytes.                (* ascon_hash(out, in, inlen) *)
 
-Inductive hop :=
-| HAssign (self : bool) (other : S)
-| HReset
-| HUpdate (d : bytes)
-| HUpdateCStr (p : ptr)
-| HUpdateString (s : bytes)
-| HFinalize
-| HFinalizeBA
-| HDigest (d : bytes).                              (* static digest(result, data, len) *)
-Definition hash_ctor_default : S := h_init.
-Definition hash_ctor_copy (junk other : S) : S := h_copy junk other.
-Definition hash_step (s : S) (x : hop) : S * bytes :=
+Inductive cpp_hop :=
+| CphAssign (self : bool) (other : S)
+| CphReset
+| CphUpdate (d : bytes)
+| CphUpdateCStr (p : cpp_ptr)
+| CphUpdateString (s : bytes)
+| CphFinalize
+| CphFinalizeBA
+| CphDigest (d : bytes).                              (* static digest(result, data, len) *)
+Definition cpp_hash_ctor_default : S := h_init.
+Definition cpp_hash_ctor_copy (junk other : S) : S := h_copy junk other.
+Definition cpp_hash_step (s : S) (x : cpp_hop) : S * bytes :=
   match x with
-  | HAssign self other => if self then (s, []) else (h_copy (h_free s) other, [])
-  | HReset => (h_reinit s, [])
-  | HUpdate d => (h_update s d, [])
-  | HUpdateCStr p => match p with None => (s, []) | Some b => (h_update s (cstring b), []) end
-  | HUpdateString str => (h_update s str, [])
-  | HFinalize => h_finalize s
-  | HFinalizeBA => let '(s', out) := h_finalize s in (s', set_at (zeros 32) 0 out)
-  | HDigest d => (s, h_oneshot d)
+  | CphAssign self other => if self then (s, []) else (h_copy (h_free s) other, [])
+  | CphReset => (h_reinit s, [])
+  | CphUpdate d => (h_update s d, [])
+  | CphUpdateCStr p => match p with None => (s, []) | Some b => (h_update s (cpp_cstring b), []) end
+  | CphUpdateString str => (h_update s str, [])
+  | CphFinalize => h_finalize s
+  | CphFinalizeBA => let '(s', out) := h_finalize s in (s', set_at (zeros 32) 0 out)
+  | CphDigest d => (s, h_oneshot d)
   end.
-Inductive hcall := HcReinit | HcUpdate (d : bytes) | HcFinalize | HcFree | HcCopyFrom (src : S) | HcOneshot (d : bytes).
-Definition h_exec (s : S) (c : hcall) : S * bytes :=
+Inductive cpp_hcall := HcReinit | HcUpdate (d : bytes) | HcFinalize | HcFree | HcCopyFrom (src : S) | HcOneshot (d : bytes).
+Definition cpp_h_exec (s : S) (c : cpp_hcall) : S * bytes :=
   match c with
   | HcReinit => (h_reinit s, []) | HcUpdate d => (h_update s d, []) | HcFinalize => h_finalize s
   | HcFree => (h_free s, []) | HcCopyFrom src => (h_copy s src, []) | HcOneshot d => (s, h_oneshot d)
   end.
-Definition hcalls_of (x : hop) : list hcall :=
+Definition cpp_hcalls_of (x : cpp_hop) : list cpp_hcall :=
   match x with
-  | HAssign self other => if self then [] else [HcFree; HcCopyFrom other]
-  | HReset => [HcReinit]
-  | HUpdate d => [HcUpdate d]
-  | HUpdateCStr None => []
-  | HUpdateCStr (Some b) => [HcUpdate (cstring b)]
-  | HUpdateString str => [HcUpdate str]
-  | HFinalize => [HcFinalize]
-  | HFinalizeBA => [HcFinalize]
-  | HDigest d => [HcOneshot d]
+  | CphAssign self other => if self then [] else [HcFree; HcCopyFrom other]
+  | CphReset => [HcReinit]
+  | CphUpdate d => [HcUpdate d]
+  | CphUpdateCStr None => []
+  | CphUpdateCStr (Some b) => [HcUpdate (cpp_cstring b)]
+  | CphUpdateString str => [HcUpdate str]
+  | CphFinalize => [HcFinalize]
+  | CphFinalizeBA => [HcFinalize]
+  | CphDigest d => [HcOneshot d]
   end.
-Fixpoint h_exec_list (s : S) (l : list hcall) : S * bytes :=
+Fixpoint cpp_h_exec_list (s : S) (l : list cpp_hcall) : S * bytes :=
   match l with
   | [] => (s, [])
-  | c :: l' => let '(s1, o1) := h_exec s c in let '(s2, o2) := h_exec_list s1 l' in (s2, o1 ++ o2)
+  | c :: l' => let '(s1, o1) := cpp_h_exec s c in let '(s2, o2) := cpp_h_exec_list s1 l' in (s2, o1 ++ o2)
   end.
 End Hash.
 
@@ -571,18 +571,18 @@ Variable c_to_hex : bytes -> bool -> nat -> option bytes.
 Variable c_from_hex : nat -> bytes -> option bytes.
 
 (* bytes_from_data(data, len): byte_array result(len); memcpy(result.data(), data, len) *)
-Definition cpp_bytes_from_data (p : ptr) (len : nat) : outcome bytes :=
-  if len =? 0 then Ok [] else obind (rd p len) (fun b => Ok (set_at (zeros len) 0 b)).
+Definition cpp_bytes_from_data (p : cpp_ptr) (len : nat) : cpp_outcome bytes :=
+  if len =? 0 then CppOk [] else cpp_obind (cpp_rd p len) (fun b => CppOk (set_at (zeros len) 0 b)).
 
 (* bytes_to_hex(in, len, upper): char out[2*len+1]; ascon_bytes_to_hex(out, sizeof(out), ...); std::string(out).
    junk = the array before the call (it stays when the C function refuses) *)
 Definition cpp_bytes_to_hex (junk : bytes) (input : bytes) (upper : bool) : bytes :=
   let n := 2 * length input + 1 in
   let out := match c_to_hex input upper n with
-             | Some chars => set_at (resize junk n) 0 (chars ++ [0%N])
-             | None => resize junk n
+             | Some chars => set_at (cpp_resize junk n) 0 (chars ++ [0%N])
+             | None => cpp_resize junk n
              end in
-  cstring out.
+  cpp_cstring out.
 
 (* bytes_from_hex(str, len): byte_array vec(len / 2); r = ascon_bytes_from_hex(vec.data(), vec.size(), str, len);
    r != -1 ? vec : byte_array() *)
@@ -593,6 +593,6 @@ Definition cpp_bytes_from_hex (chars : bytes) : bytes :=
   | None => []
   end.
 (* bytes_from_hex(const char *str): str ? strlen(str) : 0 *)
-Definition cpp_bytes_from_hex_cstr (p : ptr) : bytes :=
-  match p with None => cpp_bytes_from_hex [] | Some b => cpp_bytes_from_hex (cstring b) end.
+Definition cpp_bytes_from_hex_cstr (p : cpp_ptr) : bytes :=
+  match p with None => cpp_bytes_from_hex [] | Some b => cpp_bytes_from_hex (cpp_cstring b) end.
 End Helpers.
